@@ -27,6 +27,7 @@ Implementation: AST-based async function detection with scoped_identifier path e
 
 from __future__ import annotations
 
+import re
 from dataclasses import dataclass
 from typing import TYPE_CHECKING
 
@@ -99,7 +100,8 @@ class RustBlockingAsyncAnalyzer(RustBaseAnalyzer):
 
         calls: list[BlockingCall] = []
         self._scan_for_blocking_calls(root, code, calls)
-        return calls
+        shadowed = _names_imported_from_other_crates(code)
+        return [call for call in calls if call.blocking_api.split("::")[0] not in shadowed]
 
     def _scan_for_blocking_calls(self, node: Node, code: str, calls: list[BlockingCall]) -> None:
         """Recursively scan AST for blocking calls in async contexts.
@@ -340,7 +342,41 @@ def _matches_short_net_pattern(parts: list[str]) -> bool:
     """
     if len(parts) >= 2 and parts[0] == "net" and parts[1] in _BLOCKING_NET_TYPES:
         return True
-    return False
+    # Type imported directly: use std::net::TcpStream; TcpStream::connect(..)
+    return len(parts) >= 2 and parts[0] in _BLOCKING_NET_TYPES
+
+
+_USE_DECLARATION = re.compile(r"^\s*(?:pub\s+)?use\s+([^;]+);", re.MULTILINE)
+
+
+def _names_imported_from_other_crates(code: str) -> set[str]:
+    """Names a file imports from crates other than std (e.g. `use tokio::fs;` -> {"fs"}).
+
+    A short path such as fs::read_to_string only means std::fs when `fs` was not
+    imported from an async runtime's drop-in module.
+    """
+    names: set[str] = set()
+    for match in _USE_DECLARATION.finditer(code):
+        path = match.group(1).strip()
+        if path.startswith(("std::", "::std::", "core::", "alloc::")):
+            continue
+        names.update(_imported_leaf_names(path))
+    return names
+
+
+def _imported_leaf_names(use_path: str) -> set[str]:
+    """Leaf names bound by one use declaration (handles `{a, b::c}` groups and `as` aliases)."""
+    items = [use_path]
+    if "{" in use_path and "}" in use_path:
+        items = use_path[use_path.index("{") + 1 : use_path.rindex("}")].split(",")
+    names = set()
+    for item in items:
+        item = item.strip()
+        name = item.split(" as ")[-1] if " as " in item else item.rsplit("::", 1)[-1]
+        name = name.strip()
+        if name and name not in ("*", "self"):
+            names.add(name)
+    return names
 
 
 # Function names that safely wrap blocking operations for async execution
